@@ -25,7 +25,7 @@ class hand_reg(ContractBase):
         s, m = c['self'], c['msg']
         o = c.sk('o', HAND)
         match = MSG.get(m, 'revision') == c.old.g('dawgie.context.git_rev')
-        return {'listed-iff-current-revision-or-already': workers(c.cur)[s] == Or(match, workers(c.old)[s]),
+        return {'listed-iff-current-revision': workers(c.cur)[s] == match,
                 'stale-told-to-leave': Implies(Not(match), And(told(c, s, '_abort'), closed(c.cur, s))),
                 'accepted-not-contacted': Implies(match, And(silent(c, s), closed(c.cur, s) == closed(c.old, s))),
                 'others': Implies(o != s, And(workers(c.cur)[o] == workers(c.old)[o], sent(c.cur, o) == sent(c.old, o)))}
@@ -149,6 +149,6 @@ class hand_process(ContractBase):
                                                                  And(If(ok, told(c, s, '_Hand__proceed'), told(c, s, '_abort')), closed(c.cur, s),
                                                                      workers(c.cur) == workers(c.old))),
                 'register.accepted-iff-current': Implies(ty == MTYPE.const('register'),
-                                                         workers(c.cur)[s] == Or(workers(c.old)[s], MSG.get(m, 'revision') == c.old.g('dawgie.context.git_rev'))),
+                                                         workers(c.cur)[s] == (MSG.get(m, 'revision') == c.old.g('dawgie.context.git_rev'))),
                 'other-types-closed': Implies(And(ty != MTYPE.const('status'), ty != MTYPE.const('register'), ty != MTYPE.const('response')),
                                               And(closed(c.cur, s), silent(c, s), workers(c.cur) == workers(c.old)))}
